@@ -84,8 +84,15 @@ def run_unit(unit, ctx):
     ectx = monitors.EkfCtx(defn)
     n, k = len(defn["state"]), len(defn["calibration"])
     prev_dt = None
-    for pi in range(N_POINTS[ctx["tier"]]):
+    twins = []
+    for pi in range(N_POINTS[ctx["tier"]] + 2):
         pt = gen.point(rng, defn)
+        if pi == N_POINTS[ctx["tier"]]:
+            # two consecutive evaluations at distinct inputs that hash alike (-1.0 / -2.0)
+            twins = list(gen.collision_twins(rng, defn, pt))
+            R.stats.inc("hash_alike_consecutive_call_pairs")
+        if pi >= N_POINTS[ctx["tier"]]:
+            pt = twins[pi - N_POINTS[ctx["tier"]]]
         # consecutive evaluations on the same filter object: sometimes the same dt with other state /
         # control values, sometimes the same state with another dt (state carried between calls shows here)
         if prev_dt is not None and pi % 2 == 1:
